@@ -2,6 +2,7 @@ package main
 
 import (
 	"bufio"
+	"bytes"
 	"encoding/json"
 	"fmt"
 	"net/http"
@@ -61,7 +62,7 @@ func runConfHist(lines []string, out *bufio.Writer) {
 			fmt.Fprintf(out, "? impl error bad-json\n")
 			continue
 		}
-		func() {
+		guardCase(out, c.ID, "b0", func(out *bytes.Buffer) {
 			defer func() {
 				if r := recover(); r != nil {
 					fmt.Fprintf(out, "%s impl panic %v\n", c.ID, r)
@@ -102,6 +103,6 @@ func runConfHist(lines []string, out *bufio.Writer) {
 				}
 			}
 			fmt.Fprintf(out, "%s impl nbuilds %d\n", c.ID, nb)
-		}()
+		})
 	}
 }
